@@ -245,8 +245,127 @@ let handle_chart_case c =
     | _ -> prop "chart-status" (Printf.sprintf "all days present, handler answered %s/%s" status tag)
   end
 
+(* ---- seq: a sequence of operations on one set of buckets ---------- *)
+let handle_seq c =
+  let cfg = next_config c in
+  let semtbl = next_table c in
+  let gotbl = next_table c in
+  let vals = Array.of_list (next_list c (fun c -> let canon = next_bytes c in let r = next_report c in (canon, r))) in
+  let objtab = next_list c (fun c -> let d = next_bytes c in let id = int_of_z (next_z c) in (d, id)) in
+  let nops = next_int c in
+  let lt_sem = rank_lt semtbl and lt_go = rank_lt gotbl in
+  let enc (i : int) : bytes = fst vals.(i) in
+  let proj (i : int) : report = snd vals.(i) in
+  let dec (b : bytes) : int option =
+    match List.assoc_opt b objtab with
+    | Some id -> if id >= 0 then Some id else None
+    | None ->
+      let rec go i = if i >= Array.length vals then None else if fst vals.(i) = b then Some i else go (i + 1) in
+      go 0 in
+  let listing : bytes list ref = ref [] in
+  let ord (b : (bytes * bytes) list) =
+    let pos n = match find_index (fun x -> x = n) !listing with Some i -> i | None -> max_int in
+    List.stable_sort (fun (n1, _) (n2, _) -> Stdlib.compare (pos n1) (pos n2)) b in
+  let st = ref ws_empty in
+  let dostep op = let (st', resp) = step enc dec proj ord iter_id lt_sem lt_go cfg !st op in st := st'; resp in
+  let merged_before : (bytes, unit) Hashtbl.t = Hashtbl.create 8 in
+  let show_reps l = clip (String.concat " " (List.map show_report l)) in
+  for opi = 1 to nops do
+    match next c with
+    | "put" -> let n = next_bytes c in let d = next_bytes c in ignore (dostep (OpPut (n, d)))
+    | "del" -> let n = next_bytes c in ignore (dostep (OpDel n))
+    | "merge" ->
+      let date = next_bytes c in
+      let lst = next_blist c in
+      let status = next c in
+      let count = int_of_z (next_z c) in
+      let ftag = next c in
+      let file = if ftag = "file" then Some (next_bytes c) else None in
+      let stream_tag, recs =
+        if ftag = "file" then begin
+          let t = next c in
+          let rs = next_list c next_report in (t, rs)
+        end else ("nofile", []) in
+      let rtag = next c in
+      let read_reps = if rtag = "read-ok" then next_list c next_report else [] in
+      listing := lst;
+      (* the model's view of what is stored for the day *)
+      let stored = day_objects ord !st.ws_upload date in
+      let names_model = List.sort Stdlib.compare (List.map fst (List.filter (fun (n, _) -> has_prefix n date) !st.ws_upload)) in
+      if names_model <> List.sort Stdlib.compare lst then
+        diff "seq-listing" ~model:(String.concat "," (List.map string_of_bytes names_model))
+          ~impl:(String.concat "," (List.map string_of_bytes lst));
+      let stored_dec = List.map dec stored in
+      let all_good = List.for_all (fun x -> x <> None) stored_dec in
+      let stored_reps = List.filter_map (fun x -> match x with Some i -> Some (proj i) | None -> None) stored_dec in
+      let remerge = Hashtbl.mem merged_before date in
+      Hashtbl.replace merged_before date ();
+      (match dostep (OpMerge date) with
+       | RespMerge (mcount, mok) ->
+         if mok <> (status = "ok") then diff "seq-merge-status" ~model:(string_of_bool mok) ~impl:status;
+         if mok && int_of_nat mcount <> count then diff "seq-merge-count" ~model:(string_of_int (int_of_nat mcount)) ~impl:(string_of_int count);
+         let mfile = b_get !st.ws_merged (app date json_ext) in
+         if mfile <> file then
+           diff "seq-merged-object" ~model:(match mfile with Some f -> clip (string_of_bytes f) | None -> "none")
+             ~impl:(match file with Some f -> clip (string_of_bytes f) | None -> "none")
+       | _ -> diff "seq-merge-resp" ~model:"?" ~impl:status);
+      (* the property on the implementation's output: the merged object holds exactly the currently stored reports *)
+      if all_good then begin
+        let cls = if remerge then "remerge-replaces" else "merge-one-line-per-object" in
+        let n = List.length stored_reps in
+        if status <> "ok" then prop cls (Printf.sprintf "op %d: merge of %d decodable stored objects answered %s" opi n status)
+        else if stream_tag <> "stream-ok" then
+          prop cls (Printf.sprintf "op %d: %d reports stored for %s, the merged object is not a sequence of reports (%s after %d records)%s"
+                      opi n (string_of_bytes date) stream_tag (List.length recs) (if remerge then "; the day had been merged before" else ""))
+        else if recs <> stored_reps then
+          prop cls (Printf.sprintf "op %d: %d reports stored for %s, the merged object holds %d records%s: stored %s merged %s"
+                      opi n (string_of_bytes date) (List.length recs) (if remerge then " (the day had been merged before)" else "")
+                      (show_reps stored_reps) (show_reps recs))
+        else if count <> n then prop "merge-count" (Printf.sprintf "op %d: %d stored objects, response says %d" opi n count)
+        else if rtag <> "read-ok" || read_reps <> stored_reps then
+          prop "read-all" (Printf.sprintf "op %d: %d reports stored and merged, read back: %s %d" opi n rtag (List.length read_reps))
+      end
+    | "chart" ->
+      let start = next_z c in
+      let end_ = next_z c in
+      let status = next c in
+      let tag = next c in
+      let impl_cd = if tag = "chartdata" then begin let n = next_bytes c in let cd = next_chartdata c in Some (n, cd) end else None in
+      (* the reports the merged objects hold, per the model *)
+      let ndays = int_of_z end_ - int_of_z start + 1 in
+      let day_reads = List.init ndays (fun i -> read_state_day dec proj !st (z_of_int (int_of_z start + i))) in
+      let all_ok = List.for_all (fun r -> match r with ROk _ -> true | _ -> false) day_reads in
+      let reports = List.concat (List.map (fun r -> match r with ROk rs -> rs | _ -> []) day_reads) in
+      (match dostep (OpChart (start, end_)) with
+       | RespChart (ChartOk (name, cd)) ->
+         (match impl_cd with
+          | Some (iname, icd) when status = "ok" ->
+            check_eq "seq-chart-object-name" string_of_bytes name iname;
+            if cd <> icd then diff "seq-chart-data" ~model:(clip (show_cd cd)) ~impl:(clip (show_cd icd))
+          | _ -> diff "seq-chart-status" ~model:"ok" ~impl:(status ^ "/" ^ tag))
+       | RespChart ChartNotFound -> if status <> "notfound" then diff "seq-chart-status" ~model:"notfound" ~impl:status
+       | RespChart ChartReadErr -> if status <> "err" then diff "seq-chart-status" ~model:"err" ~impl:status
+       | RespChart ChartBadRequest -> if status <> "bad" then diff "seq-chart-status" ~model:"bad" ~impl:status
+       | RespChart ChartPanic -> if status <> "panic" then diff "seq-chart-status" ~model:"panic" ~impl:status
+       | _ -> diff "seq-chart-resp" ~model:"?" ~impl:status);
+      if all_ok then begin
+        if status = "panic" then prop "malformed-goversion" (Printf.sprintf "op %d: handleChart panics" opi)
+        else if status <> "ok" then
+          prop "rechart-replaces" (Printf.sprintf "op %d: every day of the range is merged from decodable reports, /chart/ answered %s" opi status)
+        else match impl_cd with
+          | None -> prop "rechart-replaces" (Printf.sprintf "op %d: the chart object written is not one JSON chart (%s)" opi tag)
+          | Some (_, icd) ->
+            if int_of_nat icd.cd_num <> List.length reports then
+              prop "num-reports" (Printf.sprintf "op %d: %d reports in the merged objects of the range, NumReports=%d" opi (List.length reports) (int_of_nat icd.cd_num))
+            else if not (chart_ok lt_sem lt_go cfg (fmt_date start) (fmt_date end_) reports icd) then
+              prop "partition-value" (Printf.sprintf "op %d: %s" opi (clip (show_cd icd)))
+      end
+    | k -> failwith ("seq: unknown op " ^ k)
+  done
+
 let handle kind c =
   match kind with
+  | "seq" -> handle_seq c
   | "merge" -> handle_merge c
   | "readraw" ->
     let file = next_bytes c in
